@@ -11,11 +11,11 @@ ID = "C20"
 LEVEL = "model_checking"
 EARLY_POOL_PATCH = True
 
-SERIAL = ["c1", "c2", "c3", "c22", "c6", "c3x1", "c2x2", "c3z", "c2x2z", "c3p", "x1", "x3", "x22", "x6", "x3x1", "x2x2", "x3p", "x2x2p"]
+SERIAL = ["c1", "c2", "c3", "c22", "c6", "c8", "x8", "c3x1", "c2x2", "c3z", "c2x2z", "c3p", "x1", "x3", "x22", "x6", "x3x1", "x2x2", "x3p", "x2x2p"]
 POOLED = {
-    "quick": [("c3", 2, "line", 1), ("x3", 2, "line", 1), ("c22", 3, "line", 0), ("x22", 2, "line", 0), ("c3", 1, "line", 0), ("c3z", 2, "line", 0), ("x3p", 2, "line", 0)],
+    "quick": [("c3", 2, "line", 1), ("x3", 2, "line", 1), ("c22", 3, "line", 0), ("x22", 2, "line", 0), ("c3", 1, "line", 0), ("c3z", 2, "line", 0), ("x3p", 2, "line", 0), ("c8", 1, "line", 0), ("x8", 1, "line", 0), ("c8", 2, "line", 0)],
     "thorough": [("c3", 2, "line", 1), ("x3", 2, "line", 1), ("c3", 3, "line", 1), ("x3", 3, "line", 1), ("c22", 2, "line", 1), ("x22", 2, "line", 1),
-                 ("c2x2", 3, "line", 1), ("x2x2", 2, "line", 1), ("c3", 2, "instruction", 1), ("x3", 2, "instruction", 1), ("c3", 2, "line", 2), ("c3", 1, "line", 0), ("x3", 16, "line", 1), ("c3z", 2, "line", 1), ("c2x2z", 2, "line", 1), ("x3p", 2, "line", 1), ("c3p", 3, "line", 1)],
+                 ("c2x2", 3, "line", 1), ("x2x2", 2, "line", 1), ("c3", 2, "instruction", 1), ("x3", 2, "instruction", 1), ("c3", 2, "line", 2), ("c3", 1, "line", 0), ("x3", 16, "line", 1), ("c3z", 2, "line", 1), ("c2x2z", 2, "line", 1), ("x3p", 2, "line", 1), ("c3p", 3, "line", 1), ("c8", 1, "line", 0), ("x8", 1, "line", 0), ("c8", 2, "line", 1), ("x8", 2, "line", 0)],
 }
 
 
@@ -112,11 +112,24 @@ def pooled_body(h, w, at):
         except Exception as e:  # noqa
             out = ("exc", e)
         cube.check_interrupt = None
+        # follow-up on the SAME objects: first pooled again (default schedule under a scheduler of its own, so that it does not
+        # add branching to the exploration), then serial
+        outer = sched.CURRENT
+        try:
+            sched.CURRENT = sched.Scheduler()
+            try:
+                again_pooled = ("ok", harness.freeze(cube.calculate(funcs)))
+            except Exception as e:  # noqa
+                again_pooled = ("exc", e)
+        finally:
+            sched.CURRENT = outer
         cube.parallel = False
         try:
             again = ("ok", harness.freeze(cube.calculate(funcs)))
         except Exception as e:  # noqa
             again = ("exc", e)
+        if again_pooled[0] != "ok" or (again[0] == "ok" and again_pooled[1] != again[1]):
+            again = again_pooled if again_pooled[0] != "ok" else ("ok", again_pooled[1])
         return out, cb, again
 
     return body
@@ -141,7 +154,9 @@ def pooled_check(h, at):
                 return {"kind": "raised", "detail": "calculate raised %r although the callback never raised" % (out[1],)}
             if out[1] != exp:
                 return {"kind": "result-differs", "detail": "pooled result differs from serial"}
-        if cb.calls != k:
+        # once per sub-cube when nothing is interrupted; with an interrupt the pool may legitimately skip the rest of the
+        # interrupted task's chunk (list(map(f, chunk)) stops at the exception), so only "never more than once" is claimed
+        if (not live and cb.calls != k) or cb.calls > k:
             return {"kind": "callback-count", "detail": "callback consulted %d times for %d sub-cubes" % (cb.calls, k)}
         if again[0] != "ok":
             return {"kind": "reuse-raised", "detail": "follow-up calculate raised %r" % (again[1],)}
@@ -199,9 +214,13 @@ def main(tier, all_violations=False, t0=None):
     tasks = []
     for h, w, gran, bound in POOLED[tier]:
         k = harness.subcubes(h)
-        for r in range(0, k + 1):
-            for at in itertools.combinations(range(k), r):
-                tasks.append((h, w, gran, bound, at))
+        if k <= 5:
+            subsets = [at for r in range(0, k + 1) for at in itertools.combinations(range(k), r)]
+        else:
+            # many sub-cubes: none, every single invocation, first+last, all
+            subsets = [()] + [(i,) for i in range(k)] + [(0, k - 1), tuple(range(k))]
+        for at in subsets:
+            tasks.append((h, w, gran, bound, at))
     per = {}
     if viol is None:
         pool = multiprocessing.get_context("fork").Pool(min(core.NPROC, len(tasks)))
